@@ -328,7 +328,19 @@ func C16(c *core.Ctx) {
 
 	// ---- R16.3 lock pairing and order
 	nLocks := 0
-	for _, fn := range p.FuncsIn(pkg) {
+	// (the tables' own locks, and the locks of the code that runs under them or beside them in
+	// the same goroutines: the readvertiser is called with the RIB lock held, so a mutex it
+	// keeps on an early return blocks the next route change for good while that one holds
+	// the RIB lock)
+	lockFns := append([]*ssa.Function{}, p.FuncsIn(pkg)...)
+	for _, extra := range []string{"fw/mgmt", "fw/face", "fw/fw", "fw/dispatch"} {
+		for _, f2 := range p.FuncsIn(core.ModPath + "/" + extra) {
+			if !strings.HasSuffix(p.File(f2.Pos()), "_test.go") {
+				lockFns = append(lockFns, f2)
+			}
+		}
+	}
+	for _, fn := range lockFns {
 		core.Instrs(fn, func(in ssa.Instruction) {
 			ci, ok := in.(*ssa.Call)
 			if !ok {
